@@ -1,5 +1,4 @@
-"""xtuml/meta.py, xtuml/tools.py -> lean/Gen/NewShape.lean  (C19)
-
+"""xtuml/meta.py, xtuml/tools.py -> lean/Gen/NewShape.lean:
 Reads, with `ast` only, the statement structure of instance creation and of the id generators and emits it as
 a small first-order IR:
 
